@@ -6,8 +6,10 @@ expression tree).
 Tie (K): random and systematic expression trees - leaves: constant, pair
 with function / constant / sampled (InterCoefficient.restore, orders 0-3 on
 integer grids) coefficients and their sums (Coefficient.__add__, add_inter),
-products, conj, norm, operator-valued functions, with or without an argument
-`w`; operations incl. QobjEvo(a, args=..), a.arguments(..), a(t, w=..) - are
+products, conj, norm, operator-valued functions and function coefficients with
+pythonic signatures (required or defaulted parameters, possibly omitted at
+construction), **kw and dict signatures; operations incl. QobjEvo(a, args=..),
+a.arguments(**n), a.arguments(n), a(t, **n), a(t, n) - are
 built simultaneously as real QobjEvo objects and as terms `qx G2 ZT` of the Coq
 model; Coefficient.__add__ is also compared on its own (value and class of the
 result: fused InterCoefficient or SumCoefficient); copy(), pickling and division
@@ -69,26 +71,33 @@ HEADER = r"""From Coq Require Import List ZArith Bool.
 Import ListNotations.
 From QV Require Import Model.C05 Proofs.C05.
 Open Scope Z_scope.
-Definition cfun (p : list GI) : coef G2 ZT := @CFun G2 ZT (fun _ t => cpoly p t) None.
+Definition fac (st : dstate) : Z := getd st 0 1 + 2 * getd st 1 0 + 4 * getd st 2 0.
+Definition cfun (p : list GI) : coef G2 ZT :=
+  @CFun G2 ZT (fun _ t => cpoly p t) (dinit (Some []) []).
 Definition cfunw (p : list GI) (w : Z) : coef G2 ZT :=
-  @CFun G2 ZT (fun a t => gmul (gofZ (wdef a)) (cpoly p t)) (Some w).
+  @CFun G2 ZT (fun a t => gmul (gofZ (getd a 0 1)) (cpoly p t)) (dinit (Some [0]) [(0, w)]).
+Definition cfuns (p : list GI) (ps : option (list Z)) (a0 : dict) : coef G2 ZT :=
+  @CFun G2 ZT (fun a t => gmul (gofZ (fac a)) (cpoly p t)) (dinit ps a0).
 Definition cinter (g : list Z) (rows : list (list GI)) : coef G2 ZT :=
   @CInter G2 ZT (@Build_inter G2 ZT g rows).
 Definition ccst (z : GI) : coef G2 ZT := @CConst G2 ZT z.
 Definition cadd (a b : coef G2 ZT) : coef G2 ZT := coef_add G2 ZT a b.
 Definition xconst (q : M2) : qx G2 ZT := @XConst G2 ZT q.
 Definition xpair (q : M2) (c : coef G2 ZT) : qx G2 ZT := @XPair G2 ZT q c.
-Definition xfunc (p : list M2) : qx G2 ZT := @XFunc G2 ZT (fun _ t => (mpoly p t)) None.
+Definition xfunc (p : list M2) : qx G2 ZT :=
+  @XFunc G2 ZT (fun _ t => (mpoly p t)) (dinit (Some []) []).
 Definition xfuncw (p : list M2) (w : Z) : qx G2 ZT :=
-  @XFunc G2 ZT (fun a t => (scale2 (gofZ (wdef a)) (mpoly p t))) (Some w).
+  @XFunc G2 ZT (fun a t => (scale2 (gofZ (getd a 0 1)) (mpoly p t))) (dinit (Some [0]) [(0, w)]).
+Definition xfuncs (p : list M2) (ps : option (list Z)) (a0 : dict) : qx G2 ZT :=
+  @XFunc G2 ZT (fun a t => (scale2 (gofZ (fac a)) (mpoly p t))) (dinit ps a0).
 Definition xlist (l : list (M2 * option (coef G2 ZT))) : qx G2 ZT := @XList G2 ZT l.
 Definition xaddq (a : qx G2 ZT) (q : M2) : qx G2 ZT := @XAddQ G2 ZT a q.
 Definition xaddnum (a : qx G2 ZT) (z : GI) : qx G2 ZT := @XAddNum G2 ZT a z.
 Definition xmulnum (a : qx G2 ZT) (z : GI) : qx G2 ZT := @XMulNum G2 ZT a z.
 Definition xmatmulq (a : qx G2 ZT) (q : M2) : qx G2 ZT := @XMatmulQ G2 ZT a q.
 Definition xrmatmulq (q : M2) (a : qx G2 ZT) : qx G2 ZT := @XRmatmulQ G2 ZT q a.
-Definition xargs (a : qx G2 ZT) (w : Z) : qx G2 ZT := @XArgs G2 ZT a (Some w).
-Definition xarguments (a : qx G2 ZT) (w : Z) : qx G2 ZT := @XArguments G2 ZT a (Some w).
+Definition xargs (a : qx G2 ZT) (n : dict) : qx G2 ZT := @XArgs G2 ZT a n.
+Definition xarguments (a : qx G2 ZT) (n : dict) : qx G2 ZT := @XArguments G2 ZT a n.
 Definition tto : tr G2 := @TTo G2.
 Definition tlmul (q : M2) : tr G2 := @TLmul G2 q.
 Definition trmul (q : M2) : tr G2 := @TRmul G2 q.
@@ -116,26 +125,33 @@ HEADER4 = r"""From Coq Require Import List ZArith Bool.
 Import ListNotations.
 From QV Require Import Model.C05 Model.C05_g4 Proofs.C05 Proofs.C05_g4.
 Open Scope Z_scope.
-Definition cfun4 (p : list GI) : coef G4 ZT4 := @CFun G4 ZT4 (fun _ t => cpoly p t) None.
+Definition fac4 (st : dstate) : Z := getd st 0 1 + 2 * getd st 1 0 + 4 * getd st 2 0.
+Definition cfun4 (p : list GI) : coef G4 ZT4 :=
+  @CFun G4 ZT4 (fun _ t => cpoly p t) (dinit (Some []) []).
 Definition cfunw4 (p : list GI) (w : Z) : coef G4 ZT4 :=
-  @CFun G4 ZT4 (fun a t => gmul (gofZ (wdef a)) (cpoly p t)) (Some w).
+  @CFun G4 ZT4 (fun a t => gmul (gofZ (getd a 0 1)) (cpoly p t)) (dinit (Some [0]) [(0, w)]).
+Definition cfuns4 (p : list GI) (ps : option (list Z)) (a0 : dict) : coef G4 ZT4 :=
+  @CFun G4 ZT4 (fun a t => gmul (gofZ (fac4 a)) (cpoly p t)) (dinit ps a0).
 Definition cinter4 (g : list Z) (rows : list (list GI)) : coef G4 ZT4 :=
   @CInter G4 ZT4 (@Build_inter G4 ZT4 g rows).
 Definition ccst4 (z : GI) : coef G4 ZT4 := @CConst G4 ZT4 z.
 Definition cadd4 (a b : coef G4 ZT4) : coef G4 ZT4 := coef_add G4 ZT4 a b.
 Definition xconst4 (q : M4) : qx G4 ZT4 := @XConst G4 ZT4 q.
 Definition xpair4 (q : M4) (c : coef G4 ZT4) : qx G4 ZT4 := @XPair G4 ZT4 q c.
-Definition xfunc4 (p : list M2) : qx G4 ZT4 := @XFunc G4 ZT4 (fun _ t => (emb (mpoly p t))) None.
+Definition xfunc4 (p : list M2) : qx G4 ZT4 :=
+  @XFunc G4 ZT4 (fun _ t => (emb (mpoly p t))) (dinit (Some []) []).
 Definition xfuncw4 (p : list M2) (w : Z) : qx G4 ZT4 :=
-  @XFunc G4 ZT4 (fun a t => (emb (scale2 (gofZ (wdef a)) (mpoly p t)))) (Some w).
+  @XFunc G4 ZT4 (fun a t => (emb (scale2 (gofZ (getd a 0 1)) (mpoly p t)))) (dinit (Some [0]) [(0, w)]).
+Definition xfuncs4 (p : list M2) (ps : option (list Z)) (a0 : dict) : qx G4 ZT4 :=
+  @XFunc G4 ZT4 (fun a t => (emb (scale2 (gofZ (fac4 a)) (mpoly p t)))) (dinit ps a0).
 Definition xlist4 (l : list (M4 * option (coef G4 ZT4))) : qx G4 ZT4 := @XList G4 ZT4 l.
 Definition xaddq4 (a : qx G4 ZT4) (q : M4) : qx G4 ZT4 := @XAddQ G4 ZT4 a q.
 Definition xaddnum4 (a : qx G4 ZT4) (z : GI) : qx G4 ZT4 := @XAddNum G4 ZT4 a z.
 Definition xmulnum4 (a : qx G4 ZT4) (z : GI) : qx G4 ZT4 := @XMulNum G4 ZT4 a z.
 Definition xmatmulq4 (a : qx G4 ZT4) (q : M4) : qx G4 ZT4 := @XMatmulQ G4 ZT4 a q.
 Definition xrmatmulq4 (q : M4) (a : qx G4 ZT4) : qx G4 ZT4 := @XRmatmulQ G4 ZT4 q a.
-Definition xargs4 (a : qx G4 ZT4) (w : Z) : qx G4 ZT4 := @XArgs G4 ZT4 a (Some w).
-Definition xarguments4 (a : qx G4 ZT4) (w : Z) : qx G4 ZT4 := @XArguments G4 ZT4 a (Some w).
+Definition xargs4 (a : qx G4 ZT4) (n : dict) : qx G4 ZT4 := @XArgs G4 ZT4 a n.
+Definition xarguments4 (a : qx G4 ZT4) (n : dict) : qx G4 ZT4 := @XArguments G4 ZT4 a n.
 Definition tto4 : tr G4 := @TTo G4.
 Definition tlmul4 (q : M4) : tr G4 := @TLmul G4 q.
 Definition trmul4 (q : M4) : tr G4 := @TRmul G4 q.
@@ -194,6 +210,84 @@ class MatPolyW:
         for k, m in enumerate(self.mats):
             out = out + _m_np(m) * (t ** k)
         return _qobj(w * out)
+
+
+def _fac(d):
+    return d.get("w", 1) + 2 * d.get("phi", 0) + 4 * d.get("k", 0)
+
+
+class MatPolyP:
+    """pythonic signature with defaulted parameters: (t, w=1, phi=0)"""
+    def __init__(self, mats):
+        self.mats = mats
+
+    def __call__(self, t, w=1, phi=0):
+        return _qobj((w + 2 * phi) * mpoly_np(self.mats, t))
+
+
+class MatPolyKW:
+    """**kw signature: any argument name reaches the function"""
+    def __init__(self, mats):
+        self.mats = mats
+
+    def __call__(self, t, **kw):
+        return _qobj(_fac(kw) * mpoly_np(self.mats, t))
+
+
+class MatPolyD:
+    """QuTiP-4 dict signature f(t, args)"""
+    def __init__(self, mats):
+        self.mats = mats
+
+    def __call__(self, t, args):
+        return _qobj(_fac(args) * mpoly_np(self.mats, t))
+
+
+class CoefPolyP:
+    def __init__(self, cs):
+        self.cs = cs
+
+    def __call__(self, t, w=1, phi=0):
+        return (w + 2 * phi) * sum(complex(*c) * (t ** k) for k, c in enumerate(self.cs))
+
+
+class CoefPolyKW:
+    def __init__(self, cs):
+        self.cs = cs
+
+    def __call__(self, t, **kw):
+        return _fac(kw) * sum(complex(*c) * (t ** k) for k, c in enumerate(self.cs))
+
+
+class CoefPolyD:
+    def __init__(self, cs):
+        self.cs = cs
+
+    def __call__(self, t, args):
+        return _fac(args) * sum(complex(*c) * (t ** k) for k, c in enumerate(self.cs))
+
+
+MATCLS = {"py": MatPolyP, "kw": MatPolyKW, "dict": MatPolyD}
+COEFCLS = {"py": CoefPolyP, "kw": CoefPolyKW, "dict": CoefPolyD}
+KEYS = {"w": 0, "phi": 1, "k": 2}
+PARAMS = {"req": ["w"], "py": ["w", "phi"], "kw": None, "dict": None}
+
+
+def argd(n):
+    """replacement dictionary of an "args" node (an int is the legacy {"w": n})"""
+    return {"w": n} if isinstance(n, int) else dict(n)
+
+
+def leaf_factor(style, a0, ov):
+    """what a function leaf multiplies its polynomial with: the args given at
+    construction restricted to its declared parameters, then every replacement of a
+    declared parameter (every name for **kw / dict style), defaults otherwise"""
+    ps = PARAMS[style]
+    d = {k: v for k, v in a0.items() if ps is None or k in ps}
+    for k, v in (ov or {}).items():
+        if ps is None or k in ps:
+            d[k] = v
+    return d["w"] if style == "req" else _fac(d)
 
 
 class CoefPoly:
@@ -260,6 +354,35 @@ def g_ipoly(rng, grid=None, order=None):
     return ["ipoly", list(grid), rows]
 
 
+def g_args0(rng):
+    """args given at construction: often leaves the defaulted parameters out"""
+    r = rng.random()
+    d = {}
+    if r < 0.45:
+        d["w"] = rng.randint(-2, 3)
+    elif r < 0.6:
+        d["phi"] = rng.randint(-1, 1)
+    elif r < 0.75:
+        d = {"w": rng.randint(-2, 3), "phi": rng.randint(-1, 1)}
+    if rng.random() < 0.2:
+        d["k"] = rng.randint(-1, 1)      # not a parameter of the pythonic signature
+    return d
+
+
+def g_repl(rng):
+    """replacement dictionary: often only parameters with a default"""
+    r = rng.random()
+    if r < 0.3:
+        return {"phi": rng.randint(-1, 1)}
+    if r < 0.45:
+        return {"k": rng.randint(-1, 1)}
+    if r < 0.65:
+        return {"w": rng.randint(-2, 3)}
+    if r < 0.85:
+        return {"w": rng.randint(-2, 3), "phi": rng.randint(-1, 1)}
+    return {"phi": rng.randint(-1, 1), "k": rng.randint(-1, 1)}
+
+
 def g_coef(rng, depth=2, allow_w=False):
     r = rng.random()
     if r < 0.14:
@@ -269,8 +392,10 @@ def g_coef(rng, depth=2, allow_w=False):
         cs = [g_gi(rng) for _ in range(deg + 1)]
         if all(c == [0, 0] for c in cs):
             cs[0] = [1, 1]
-        if allow_w and rng.random() < 0.3:
-            return ["funw", cs, rng.randint(1, 3)]
+        if allow_w and rng.random() < 0.45:
+            if rng.random() < 0.35:
+                return ["funw", cs, rng.randint(1, 3)]
+            return ["funs", cs, rng.choice(["py", "kw", "dict"]), g_args0(rng)]
         return ["fun", cs]
     if r < 0.58:
         return ["const", g_gi(rng)]
@@ -293,8 +418,10 @@ def g_leaf(rng, ext):
     if r < 0.8:
         deg = rng.randint(0, 2)
         mats = [g_mat(rng) for _ in range(deg + 1)]
-        if ext and rng.random() < 0.3:
-            return ["funcw", mats, rng.randint(1, 3)]
+        if ext and rng.random() < 0.45:
+            if rng.random() < 0.35:
+                return ["funcw", mats, rng.randint(1, 3)]
+            return ["funcs", mats, rng.choice(["py", "kw", "dict"]), g_args0(rng)]
         return ["func", mats]
     n = rng.randint(2, 4)
     items = []
@@ -346,7 +473,8 @@ def g_tree(rng, depth, ext=False):
             f = ["rmul", g_mat(rng)]
         return ["linmap", f, a]
     if r < 0.95:
-        return ["args", a, rng.randint(-2, 3), rng.choice(["call", "arguments", "ctor"])]
+        return ["args", a, g_repl(rng),
+                rng.choice(["call", "calld", "arguments", "argumentsd", "ctor"])]
     k = rng.random()
     if k < 0.35:
         return ["copy", a]
@@ -420,7 +548,7 @@ def is_core(tree):
 def n_terms(tree):
     """number of elements the tree builds (upper bound)"""
     op = tree[0]
-    if op in ("const", "pair", "func", "funcw"):
+    if op in ("const", "pair", "func", "funcw", "funcs"):
         return 1
     if op == "list":
         return len(tree[1])
@@ -444,7 +572,7 @@ def gi_c(z):
 
 # ---- sampled (array) coefficients: leaf ["arr", samples, tlist, order]
 _LEAF = {}
-POLY_OPS = {"fun", "funw", "func", "funcw"}
+POLY_OPS = {"fun", "funw", "funs", "func", "funcw", "funcs"}
 
 
 def _arr_new(c):
@@ -526,7 +654,7 @@ def ipoly_np(c, t):
     return out
 
 
-def coef_np(c, t, w=None):
+def coef_np(c, t, ov=None):
     op = c[0]
     if op == "arr":
         return complex(arr_leaf(c)(t))
@@ -535,18 +663,20 @@ def coef_np(c, t, w=None):
     if op == "fun":
         return sum(gi_c(k) * (t ** i) for i, k in enumerate(c[1]))
     if op == "funw":
-        ww = c[2] if w is None else w
+        ww = leaf_factor("req", {"w": c[2]}, ov)
         return ww * sum(gi_c(k) * (t ** i) for i, k in enumerate(c[1]))
+    if op == "funs":
+        return leaf_factor(c[2], c[3], ov) * sum(gi_c(k) * (t ** i) for i, k in enumerate(c[1]))
     if op == "const":
         return gi_c(c[1])
     if op == "sum":
-        return coef_np(c[1], t, w) + coef_np(c[2], t, w)
+        return coef_np(c[1], t, ov) + coef_np(c[2], t, ov)
     if op == "mul":
-        return coef_np(c[1], t, w) * coef_np(c[2], t, w)
+        return coef_np(c[1], t, ov) * coef_np(c[2], t, ov)
     if op == "conj":
-        return np.conj(coef_np(c[1], t, w))
+        return np.conj(coef_np(c[1], t, ov))
     if op == "norm":
-        v = coef_np(c[1], t, w)
+        v = coef_np(c[1], t, ov)
         return v * np.conj(v)
     raise ValueError(op)
 
@@ -558,63 +688,65 @@ def mpoly_np(mats, t):
     return out
 
 
-def sem_np(x, t, w=None):
+def sem_np(x, t, ov=None):
     """the same combination applied to the constituents' values at t"""
     op = x[0]
     I2 = np.eye(2, dtype=complex)
     if op == "const":
         return _m_np(x[1])
     if op == "pair":
-        return coef_np(x[2], t, w) * _m_np(x[1])
+        return coef_np(x[2], t, ov) * _m_np(x[1])
     if op == "func":
         return mpoly_np(x[1], t)
     if op == "funcw":
-        return (x[2] if w is None else w) * mpoly_np(x[1], t)
+        return leaf_factor("req", {"w": x[2]}, ov) * mpoly_np(x[1], t)
+    if op == "funcs":
+        return leaf_factor(x[2], x[3], ov) * mpoly_np(x[1], t)
     if op == "list":
         out = np.zeros((2, 2), dtype=complex)
         for m, c in x[1]:
-            out = out + (_m_np(m) if c is None else coef_np(c, t, w) * _m_np(m))
+            out = out + (_m_np(m) if c is None else coef_np(c, t, ov) * _m_np(m))
         return out
     if op == "add":
-        return sem_np(x[1], t, w) + sem_np(x[2], t, w)
+        return sem_np(x[1], t, ov) + sem_np(x[2], t, ov)
     if op == "sub":
-        return sem_np(x[1], t, w) - sem_np(x[2], t, w)
+        return sem_np(x[1], t, ov) - sem_np(x[2], t, ov)
     if op == "addq":
-        return sem_np(x[1], t, w) + _m_np(x[2])
+        return sem_np(x[1], t, ov) + _m_np(x[2])
     if op == "addnum":
-        return sem_np(x[1], t, w) + gi_c(x[2]) * I2
+        return sem_np(x[1], t, ov) + gi_c(x[2]) * I2
     if op == "mulnum":
-        return gi_c(x[2]) * sem_np(x[1], t, w)
+        return gi_c(x[2]) * sem_np(x[1], t, ov)
     if op == "div":
-        return sem_np(x[1], t, w) / gi_c(x[2])
+        return sem_np(x[1], t, ov) / gi_c(x[2])
     if op == "mulcoef":
-        return coef_np(x[2], t, w) * sem_np(x[1], t, w)
+        return coef_np(x[2], t, ov) * sem_np(x[1], t, ov)
     if op == "matmul":
-        return sem_np(x[1], t, w) @ sem_np(x[2], t, w)
+        return sem_np(x[1], t, ov) @ sem_np(x[2], t, ov)
     if op == "matmulq":
-        return sem_np(x[1], t, w) @ _m_np(x[2])
+        return sem_np(x[1], t, ov) @ _m_np(x[2])
     if op == "rmatmulq":
-        return _m_np(x[1]) @ sem_np(x[2], t, w)
+        return _m_np(x[1]) @ sem_np(x[2], t, ov)
     if op == "neg":
-        return -sem_np(x[1], t, w)
+        return -sem_np(x[1], t, ov)
     if op == "trans":
-        return sem_np(x[1], t, w).T
+        return sem_np(x[1], t, ov).T
     if op == "conj":
-        return np.conj(sem_np(x[1], t, w))
+        return np.conj(sem_np(x[1], t, ov))
     if op == "dag":
-        return np.conj(sem_np(x[1], t, w)).T
+        return np.conj(sem_np(x[1], t, ov)).T
     if op == "linmap":
         f = x[1]
-        v = sem_np(x[2], t, w)
+        v = sem_np(x[2], t, ov)
         if f[0] == "to":
             return v
         if f[0] == "lmul":
             return _m_np(f[1]) @ v
         return v @ _m_np(f[1])
     if op in ("compress", "ctor", "copy", "pickle"):
-        return sem_np(x[1], t, w)
+        return sem_np(x[1], t, ov)
     if op == "args":
-        return sem_np(x[1], t, x[2] if w is None else w)
+        return sem_np(x[1], t, {**argd(x[2]), **(ov or {})})     # the outer replacement wins
     raise ValueError(op)
 
 
@@ -626,9 +758,9 @@ def cbound(c, T):
         span = max(1, c[1][-1] - c[1][0])
         return sum(max(abs(v[0]) + abs(v[1]) for v in row) * span ** (len(c[2]) - 1 - i)
                    for i, row in enumerate(c[2]))
-    if op in ("fun", "funw"):
+    if op in ("fun", "funw", "funs"):
         b = sum((abs(k[0]) + abs(k[1])) * T ** i for i, k in enumerate(c[1]))
-        return b * (3 if op == "funw" else 1)
+        return b * {"fun": 1, "funw": 3, "funs": 9}[op]
     if op == "const":
         return abs(c[1][0]) + abs(c[1][1])
     if op == "sum":
@@ -653,8 +785,9 @@ def bound(x, T):
         return mb(x[1])
     if op == "pair":
         return cb(x[2]) * mb(x[1])
-    if op in ("func", "funcw"):
-        return sum(mb(m) * T ** k for k, m in enumerate(x[1])) * (3 if op == "funcw" else 1)
+    if op in ("func", "funcw", "funcs"):
+        return (sum(mb(m) * T ** k for k, m in enumerate(x[1]))
+                * {"func": 1, "funcw": 3, "funcs": 9}[op])
     if op == "list":
         return sum(mb(m) * (1 if c is None else cb(c)) for m, c in x[1])
     if op in ("add", "sub"):
@@ -676,7 +809,7 @@ def bound(x, T):
     if op == "linmap":
         f = x[1]
         return bound(x[2], T) * (1 if f[0] == "to" else 2 * mb(f[1]))
-    if op == "args":
+    if op == "args":        # leaves are bounded with their largest factor already
         return bound(x[1], T) * 3
     return bound(x[1], T)
 
@@ -697,6 +830,8 @@ def coef_impl(c):
         return coefficient(CoefPoly(c[1]))
     if op == "funw":
         return coefficient(CoefPolyW(c[1]), args={"w": c[2]})
+    if op == "funs":
+        return coefficient(COEFCLS[c[2]](c[1]), args=dict(c[3]))
     if op == "const":
         return const(gi_c(c[1]))
     if op == "sum":
@@ -728,6 +863,8 @@ def build_impl(x, root=True):
         return QobjEvo(MatPoly(x[1]))
     if op == "funcw":
         return QobjEvo(MatPolyW(x[1]), args={"w": x[2]})
+    if op == "funcs":
+        return QobjEvo(MATCLS[x[2]](x[1]), args=dict(x[3]))
     if op == "list":
         return QobjEvo([_qobj(_m_np(m)) if c is None else [_qobj(_m_np(m)), coef_impl(c)]
                         for m, c in x[1]])
@@ -784,13 +921,17 @@ def build_impl(x, root=True):
     if op == "args":
         a = build_impl(x[1], False)
         probe = [np.asarray(a(tt).full()) for tt in (1.0, -2.0)]
+        n = argd(x[2])
         if x[3] == "arguments":
             b = a.copy()
-            b.arguments(w=x[2])
+            b.arguments(**n)
+        elif x[3] == "argumentsd":
+            b = a.copy()
+            b.arguments(n)
         elif x[3] == "ctor" or not root:
-            b = QobjEvo(a, args={"w": x[2]})
+            b = QobjEvo(a, args=n)
         else:
-            b = _ArgsCall(a, x[2])
+            b = _ArgsCall(a, n, x[3] == "calld")
             b(1.0)
         # the object the arguments were replaced on must be unchanged
         for tt, v in zip((1.0, -2.0), probe):
@@ -805,21 +946,21 @@ class OriginalChanged(Exception):
 
 
 class _ArgsCall:
-    """a(t, w=..): argument replacement at call time"""
-    def __init__(self, a, w):
-        self.a, self.w = a, w
-        self._b = QobjEvo_with(a, w)
+    """a(t, **n) / a(t, n): argument replacement at call time"""
+    def __init__(self, a, n, positional=False):
+        self.a, self.n, self.positional = a, n, positional
+        self._b = QobjEvo_with(a, n)
 
     def __call__(self, t):
-        return self.a(t, w=self.w)
+        return self.a(t, self.n) if self.positional else self.a(t, **self.n)
 
     def __getattr__(self, k):
         return getattr(self._b, k)
 
 
-def QobjEvo_with(a, w):
+def QobjEvo_with(a, n):
     from qutip import QobjEvo
-    return QobjEvo(a, args={"w": w})
+    return QobjEvo(a, args=n)
 
 
 def elements_of(obj):
@@ -934,6 +1075,15 @@ def c_z(n):
     return "(%d)" % n
 
 
+def c_dict(d):
+    return vlib.clist(sorted(d.items()), lambda kv: "(%d, %d)" % (KEYS[kv[0]], kv[1]))
+
+
+def c_ps(style):
+    ps = PARAMS[style]
+    return "None" if ps is None else "(Some %s)" % vlib.clist(ps, lambda k: "%d" % KEYS[k])
+
+
 def c_mat(m, u=""):
     r = "(mk2 %s %s %s %s)" % tuple(c_gi(e) for e in m)
     return "(emb %s)" % r if u else r
@@ -945,6 +1095,8 @@ def c_coef(c, u=""):
         return "(cfun%s %s)" % (u, vlib.clist(c[1], c_gi))
     if op == "funw":
         return "(cfunw%s %s %s)" % (u, vlib.clist(c[1], c_gi), c_z(c[2]))
+    if op == "funs":
+        return "(cfuns%s %s %s %s)" % (u, vlib.clist(c[1], c_gi), c_ps(c[2]), c_dict(c[3]))
     if op == "ipoly":
         return "(cinter%s %s %s)" % (u, vlib.clist(c[1], c_z),
                                       vlib.clist(c[2], lambda r: vlib.clist(r, c_gi)))
@@ -975,9 +1127,11 @@ def c_tree(x, u=""):
         return "(xfunc%s %s)" % (u, vlib.clist(x[1], c_mat))
     if op == "funcw":
         return "(xfuncw%s %s %s)" % (u, vlib.clist(x[1], c_mat), c_z(x[2]))
+    if op == "funcs":
+        return "(xfuncs%s %s %s %s)" % (u, vlib.clist(x[1], c_mat), c_ps(x[2]), c_dict(x[3]))
     if op == "args":
-        return "(%s%s %s %s)" % ("xarguments" if x[3] == "arguments" else "xargs", u,
-                                 T(x[1]), c_z(x[2]))
+        return "(%s%s %s %s)" % ("xarguments" if x[3].startswith("arguments") else "xargs", u,
+                                 T(x[1]), c_dict(argd(x[2])))
     if op == "list":
         return "(xlist%s %s)" % (u, vlib.clist(
             x[1], lambda p: "(%s, %s)" % (Mx(p[0]),
@@ -1038,7 +1192,7 @@ def subtrees(x):
         return [x[1], x[2]]
     if op in ("rmatmulq", "linmap"):
         return [x[2]]
-    if op in ("const", "pair", "func", "funcw", "list"):
+    if op in ("const", "pair", "func", "funcw", "funcs", "list"):
         return []
     return [x[1]]
 
@@ -1688,7 +1842,7 @@ def systematic_cases(maxlen):
     return out
 
 
-def systematic_inter_args_cases(rng):
+def systematic_inter_args_cases(rng, quick=True):
     """sampled coefficients sharing an operator (fused / summed / multiplied) and
     argument replacement over every leaf kind, at several times"""
     M = [[0, 1], [1, 0], [2, 0], [0, -1]]
@@ -1721,6 +1875,22 @@ def systematic_inter_args_cases(rng):
     Q = ["pair", M2, ["mul", ["funw", [[1, 0], [1, 0]], 3], ["conj", ["fun", [[0, 1], [1, 0]]]]]]
     bases = [F, ["matmul", F, P], ["dag", ["matmul", G, F]], ["list", [[M, P[2]], [M, Q[2]], [M2, None]]],
              ["mulcoef", ["mulnum", F, [1, 1], "r"], Q[2], "l"], ["add", ["matmul", P, F], Q]]
+    mats = F[1]
+    for style in ("py", "kw", "dict"):
+        for a0 in ({"w": 2}, {}, {"phi": 1}, {"w": 2, "k": 1}):
+            L = ["funcs", mats, style, a0]
+            Lc = ["pair", M, ["funs", [[1, 1], [0, 1]], style, a0]]
+            for n in (({"phi": 1}, {"phi": -1, "k": 1}, {"w": 3}) if quick else
+                      ({"phi": 1}, {"k": -1}, {"phi": -1, "k": 1}, {"w": 3})):
+                for mode in (("ctor", "call", "argumentsd") if quick else
+                             ("ctor", "arguments", "call", "calld", "argumentsd")):
+                    for x in (["args", L, n, mode],
+                              ["args", ["add", ["dag", ["matmul", L, G]], Lc], n, mode]):
+                        out.append({"tree": x, "t": rng.choice([-2, -1, 1, 2]), "state": S,
+                                    "corpus": "systematic-args-defaults"})
+                out.append({"tree": ["args", ["args", ["matmul", Lc, L], n, "ctor"],
+                                     {"w": -1}, "arguments"],
+                            "t": 2, "state": S, "corpus": "systematic-args-defaults"})
     for b in bases:
         for mode in ("ctor", "arguments", "call"):
             for x in (["args", b, 3, mode], ["args", ["args", b, 3, "ctor"], -2, mode],
@@ -1772,9 +1942,10 @@ def run(ctx):
         "Qobj.__eq__ (tolerant isequal) used by compress is modelled as exact equality",
         "A map given to linear_map is additive and homogeneous (tr_ok), the documented "
         "contract of QobjEvo.linear_map; Qobj.to is the identity on values",
-        "Python callables at the leaves are pure functions of t and of their args; an args "
-        "dictionary is modelled up to the keys a function uses (restriction to _f_parameters "
-        "and the replace_arguments cache are not modelled: they do not change values)",
+        "Python callables at the leaves are pure functions of t and of their args; each "
+        "function leaf carries its declared parameter set (None for **kw / dict style) and "
+        "the _f_parameters filter of __init__ / replace_arguments is modelled (dinit, dmerge); "
+        "the replace_arguments cache (sharing of equal results) is not: it does not change values",
         "TimeS: on the times in play add_inter's closeness test (rtol=1e-15, atol=0) is "
         "equality (law tclose_sep, proved for integer ticks below 1e15); two distinct doubles "
         "within 4 ulp of each other are outside the theorem (rounding level)",
@@ -1840,7 +2011,7 @@ def run(ctx):
     # systematic stream (seed independent): every chain of unary operations up to
     # length 2 (quick) / 3 (thorough) over four product bases
     cases += systematic_cases(2 if ctx.quick else 3)
-    cases += systematic_inter_args_cases(random.Random(ctx.seed + 505))
+    cases += systematic_inter_args_cases(random.Random(ctx.seed + 505), ctx.quick)
     ncorpus = len(cases)
     ncore = 260 if ctx.quick else 6000
     while len(cases) < ncorpus + ncore:
